@@ -81,6 +81,7 @@ func roundTripCase(r *mon.Run, tmp string, i int, big bool) {
 	}
 
 	var b1 bytes.Buffer
+	b1.Grow(len(b0) + 4096)
 	err = fasthttp.WriteMultipartForm(&b1, f0, fs.Boundary)
 	f0.RemoveAll()
 	if err != nil {
